@@ -402,7 +402,6 @@ def canaries():
     from harness.common import mutate
     return [
         ('16bit-boundary-off', 'encode', lambda: mutate(WS.WebSocketCodec, '_encode_tail', 'elif data_length <= 0xFFFF:', 'elif data_length <= 0x10000:'), None),
-        ('frame-complete-check-on-slice', 'decode-cuts', lambda: mutate(WS.WebSocketCodec, '_parse_messages', 'if len(data) - offset < payload_length:', 'if len(data[offset:]) < payload_length:'), None),
         ('mask-index-wrong', 'decode-cuts', lambda: mutate(WS.WebSocketCodec, '_parse_messages', 'masking_key[i % 4]', 'masking_key[i % 3]'), None),
         ('pending-not-reset', 'fragments', lambda: mutate(WS.WebSocketCodec, '_parse_messages', 'self._pending_payload = bytearray()\n                msgs.append(msg)', 'msgs.append(msg)'), None),
     ]
